@@ -68,6 +68,8 @@ def site(stderr):
         m = re.search(r"-->\s+(\S+?):(\d+):", line)
         if m:
             f = m.group(1)
+            if "/repo-link/" in f:
+                return f[f.index("/repo-link/") + 11 :] + ":" + m.group(2)
             if "/repo/" in f:
                 return f[f.index("/repo/") + 6 :] + ":" + m.group(2)
             if "registry/src/" in f:
